@@ -3,8 +3,9 @@ TRUST = ("trusted: CPython 3.12, numpy, Cython/gcc used to stage the compiled bu
          "reference models. Bounded search: never establishes absence (bounds in DESIGN.md section 7).")
 
 chk("C04", "differential testing against mirrored Python evaluation (exhaustive operator grid + Hypothesis term generation)",
-    "Exhaustive operator x operand-order x value-palette differential plus generated expression trees (depth<=5) and every "
-    "in-place operator, each compared by value and type (or exception type) with direct Python evaluation of the mirrored term; "
+    "Exhaustive operator x operand-order x value-palette differential (incl. ints beyond the float range on + - * / // % and "
+    "comparisons) plus generated expression trees (depth<=5) and every in-place operator on plain / composite-defined / alias-defined "
+    "locations (old array values must not be mutated), each compared by value and type (or exception type) with direct Python evaluation of the mirrored term; "
     "decides the homomorphism on the enumerated grid and samples it on trees.",
     TRUST, "DESIGN.md 4/C04", engine="hypothesis + enumeration")
 
@@ -29,7 +30,7 @@ chk("C03", "stateful differential testing against a freshly built manager plus a
     TRUST, "DESIGN.md 4/C03")
 
 chk("C05", "exhaustive node-class x slot enumeration (introspected) plus generated terms, structural and metamorphic oracle",
-    "Every concrete node class found by introspection x every operand slot x 8 filler shapes (enumerated), plus generated terms: "
+    "Every concrete node class found by introspection x every operand slot x 11 filler shapes incl. computed keys in the middle of an access chain (enumerated), plus generated terms: "
     "_get_dependencies() must be a set equal (both inclusions) to the AST-derived location set, and perturbing any location through "
     "its ref that changes the mirrored value must hit a reported dependency and update a task defined by the expression. A node class "
     "without a slot-table entry fails the check rather than being skipped.",
@@ -55,7 +56,7 @@ chk("C11", "round-trip testing of generated expression programs (eval(str(e))) a
     "operand-level structure, dependency set and value (two valuations, compared with mirrored Python). Generated histories: "
     "load(dump()) (also via JSON) into a fresh manager gives the same definitions, passes verify()/index invariant, answers queries "
     "identically and follows the pull model under follow-up assignments. copy_expr_from in plain / overwrite=False / label-rename / "
-    "nested-rebinding modes yields exactly the model's rebound definitions, leaves the source untouched and follows the model.",
+    "nested-rebinding modes - the rebinding modes also with overwrite=False and with a target that has definitions of its own - yields exactly the model's rebound definitions, leaves the source untouched and follows the model.",
     TRUST + " Known findings K2 (math.floor/ceil/trunc print as bare names) and K3 (_eq/_neq print as ==/!=) are excluded by "
     "construction and replayed as exemplars; nested rebinding puts the copied tasks into C01's K1 class, so values are compared "
     "only for the other modes.", "DESIGN.md 4/C11")
@@ -79,7 +80,7 @@ chk("C17", "stateful model-based testing: generated histories with freeze/unfree
 chk("C18", "fault injection at every crash point of a generated update, differential against a fault-free twin execution",
     "Generated task graphs over fault-injecting containers; the fault-free event sequence W (container writes, user-function calls, "
     "function-task actions) of one observed assignment is recorded on a twin; for every crash point k (all k when |W| <= 8, else 0, "
-    "last, middle and drawn ones) a fresh world fails at event k: the injected exception object must reach the caller, the observed "
+    "last, middle and drawn ones) a fresh world fails at event k with a drawn exception type (private class, KeyError, AttributeError, IndexError, ValueError, RuntimeError, TypeError, OSError): the injected exception object must reach the caller, the observed "
     "events must be exactly W[0..k], the contents must equal the pre-state plus the writes of W[:k], dump()/index supports/verify()/"
     "queries must equal the twin's, and a fault-free repeat must reproduce the twin's final contents; one more world takes 2-3 faulty "
     "attempts in a row before the repeat.",
@@ -90,7 +91,7 @@ chk("C07", "exhaustive small-scope enumeration plus generated update/lookup scri
     "All 364 index columns over a 3-name alphabet up to length 5 x every row form (present / absent names, positive / negative / "
     "out-of-range counts, offsets landing inside, string and tuple spelling) through table[col,row], rows.get_index and table // row, "
     "before and after every single-cell assignment to the index column (by position and by name); plus generated scripts interleaving "
-    "whole-column assignment (item / attribute), cell assignment, write-by-name, new and deleted columns with lookups and label checks "
+    "whole-column assignment (item / attribute), cell assignment, write-by-name, new and deleted columns with lookups and label checks on tables of 0..8 and (one in five) 9..64 rows "
     "(get_index_unique labels resolve to their own row and are what show() prints). Oracle: linear scan of the model's current names.",
     "trusted: CPython 3.12, numpy, Hypothesis; the harness' linear-scan reference. Exhaustive only for the stated small scope; scripts "
     "are bounded search (<= 8 rows, <= 25 steps).", "DESIGN.md 4/C07", engine="hypothesis + enumeration")
@@ -100,7 +101,7 @@ chk("C08", "exhaustive small-scope selector enumeration under per-worker hash se
     "either case with positive / negative / out-of-range counts and shifts, closed / open / count-and-shift-addressed name spans, spans "
     "over another column, closed and one- or two-sided-open value ranges on float and int columns, None, slices, empty) through rows[], "
     "rows.indices[] and rows.mask[]; the regex family runs in every worker, each under its own PYTHONHASHSEED (8 quick / 16 thorough). "
-    "Generated larger tables (<= 40 rows) and selector pairs check rows[s1,s2] == rows[s1].rows[s2] == reference composition. Results are "
+    "Generated larger tables (<= 40 rows), name pools with case-only duplicates and regex metacharacters (selectors without count), a float column holding NaN, and selector pairs check rows[s1,s2] == rows[s1].rows[s2] == reference composition. Results are "
     "read through a hidden position column, so order and multiplicity are compared.",
     "trusted: CPython 3.12, numpy, Hypothesis; the harness' reference selector (linear scans, re.fullmatch). Names avoid separators, regex "
     "metacharacters and case-only duplicates; shifts leaving the table are excluded and counted.", "DESIGN.md 4/C08",
@@ -108,8 +109,8 @@ chk("C08", "exhaustive small-scope selector enumeration under per-worker hash se
 
 chk("C14", "stateful (pool-based) generated derivation scripts with a per-step structural invariant and before/after snapshots of the source",
     "Generated scripts over a pool of tables (checked constructors with float / int / string / object / 2-D columns and scalar entries, "
-    "index 'name' or another column, 0..6 rows) applying rows[...], cols[...] (names and expressions), +, Table.concatenate, * k, _copy(), "
-    "_t, head / tail / reverse to any pool member (views of views, copies of copies) interleaved with in-place and new column assignments: "
+    "index 'name' or another column, 0..6 and 17..40 rows) applying rows[...], cols[...] (names, expressions, [:] / None), _select_cols, _select_rows, the "
+    "checked constructor with an explicit column list, +, Table.concatenate, * k, _copy(), _t, head / tail / reverse to any pool member (views of views, copies of copies) interleaved with in-place and new column assignments: "
     "after every step every pool member must be rectangular (each listed column resolves with length len(table), index listed); around "
     "every derivation a deep snapshot of the source must be unchanged, scalars must be carried over by row / column selections and the "
     "derived content must be what the operation denotes; column expressions equal the element-wise numpy computation.",
@@ -129,7 +130,7 @@ chk("C16", "property-based testing against construction-known factorizations, an
 chk("C09", "property-based testing of generated matching problems with an independent re-evaluation of the user function and a log-row-0 restore oracle",
     "Generated problems (linear / quadratic / trigonometric, consistent / inconsistent / rank-deficient, targets reachable / on a limit / "
     "behind the limits / far / arbitrary, weights, tolerances, n_steps_max 1..8, Broyden variants, disabled knobs and targets, transient "
-    "action faults, restore_if_fail on / off) with prologues (step, clear_log, knobs moved then disabled, an earlier successful solve): if "
+    "action faults, restore_if_fail on / off, knobs / targets inactive at construction and enabled later) with prologues (step, clear_log, knobs moved then disabled, an earlier successful solve): if "
     "solve() returns, the harness' own evaluation of the user function at the container's knobs is within every active tolerance; if it "
     "raises with restore_if_fail, knobs and active flags equal log row 0 (bit-exact for unit weights, 4 ulp otherwise).",
     "trusted: CPython 3.12, numpy, Hypothesis; the harness' numpy user functions. Bounded search (n <= 4, m <= 5).", "DESIGN.md 4/C09")
@@ -144,7 +145,7 @@ chk("C10", "property-based testing of generated step plans with a log-wide invar
     "Bounded search (n <= 4, m <= 5, <= 16 Jacobian steps per case).", "DESIGN.md 4/C10")
 
 chk("C15", "stateful script testing of one optimizer object with an independent re-evaluation of every logged row",
-    "Generated scripts of step / solve (incl. failing) / reload(row | tag) / tag / enable / disable / clear_log calls on one Optimize over a "
+    "Generated scripts of step / solve (incl. failing) / reload(row | tag) / tag / enable / disable / clear_log calls and disable-step-enable-step episodes on one Optimize over a "
     "generated deterministic problem: after each step(take_best=True) that returns, the harness' evaluation is within all active "
     "tolerances or the container holds a minimum-penalty row of that call and the independently computed end penalty does not exceed the "
     "start penalty; finally EVERY row of the log is reloaded: knobs (bit-exact / 4 ulp) and active flags must be the row's, and the "
@@ -163,7 +164,7 @@ chk("C19", "grammar-based generation (own walker over calc_grammar) with a three
 
 chk("C20", "configuration-differential testing: one generated corpus interpreted under {compiled, pure} x hash seeds, canonical transcripts compared in the parent",
     "The parent generates one corpus from VERIF_SEED (manager histories, pickle and dump/load programs, expression terms over adversarial "
-    "keys); child processes interpret every program under the Cython build of the working tree and the pure-Python build, each under "
+    "keys, definitions through numpy- and Python-typed scalar item keys); child processes interpret every program under the Cython build of the working tree and the pure-Python build, each under "
     "several PYTHONHASHSEED values (4 configurations quick, 16 thorough) and emit a canonical transcript after every operation (contents, "
     "sorted dump(), index supports, exception type names, printed forms, values with types, dependency sets, ==/hash verdicts); all "
     "transcripts of a program must be identical; a mismatch is minimised by greedy re-interpretation under the two differing configurations.",
